@@ -338,6 +338,7 @@ RESET_TIMER:
 
 		// if it runs here, that means we have to block the call, and wait until the
 		// next data packet arrives.
+		verifYield(1)
 		select {
 		case <-s.chReadEvent:
 			if timeout != nil {
@@ -429,6 +430,7 @@ RESET_TIMER:
 
 		// if it runs here, that means we have to block the call, and wait until the
 		// transmit buffer to become available again.
+		verifYield(2)
 		select {
 		case <-s.chWriteEvent:
 			if timeout != nil {
@@ -470,6 +472,7 @@ func (s *UDPSession) Close() error {
 	if !once {
 		return errors.WithStack(io.ErrClosedPipe)
 	}
+	verifYield(5)
 
 	atomic.AddUint64(&DefaultSnmp.CurrEstab, ^uint64(0))
 
@@ -773,6 +776,7 @@ func (s *UDPSession) postProcess() {
 					// or context is cancelled. In either case, we continue sending.
 					_ = limiter.WaitN(ctx, bytesToSend)
 				}
+				verifYield(4)
 				s.tx(txqueue)
 				s.kcp.debugLog(IKCP_LOG_OUTPUT, "conv", s.kcp.conv, "datalen", bytesToSend)
 				// recycle
@@ -811,6 +815,7 @@ func (s *UDPSession) update() {
 		}
 		s.mu.Unlock()
 		// self-synchronized timed scheduling
+		verifYield(3)
 		SystemTimedSched.Put(s.update, time.Now().Add(time.Duration(interval)*time.Millisecond))
 	}
 }
@@ -1027,6 +1032,7 @@ func (s *UDPSession) packetInput(data []byte) {
 func (s *UDPSession) kcpInput(data []byte) {
 	atomic.AddUint64(&DefaultSnmp.InPkts, 1)
 	atomic.AddUint64(&DefaultSnmp.InBytes, uint64(len(data)))
+	verifYield(8)
 
 	// 16bit kcp cmd [81-84] and frg [0-255] will not overlap with FEC type 0x00f1 0x00f2
 	fecFlag := binary.LittleEndian.Uint16(data[4:])
